@@ -134,6 +134,10 @@ structure Record (F : Type) where
 /-- the per-metric dimensions a record carries (`[]` for the no-dimension record) -/
 def Record.splitKey {F : Type} (r : Record F) : Key := r.route.getD []
 
+/-- the member names of the record's JSON object, in the order written: the `_aws` metadata member,
+then `members` (per-metric dimensions, metric values, string values) -/
+def Record.memberNames {F : Type} (r : Record F) : List Str := awsName :: r.members.map (·.1)
+
 def satMul (a b : Nat) : Nat := min (a * b) u64Max
 
 /-- number of occurrences an observation stands for -/
@@ -487,17 +491,41 @@ def noUnroutable {F : Type} : Entry F → Bool
   | .allowUnroutable :: _ => false
   | _ :: e => noUnroutable e
 
-/-- the per-metric dimension keys of every split metric are pairwise distinct, differ from every
-string member's name and from the name of every metric of the same record (the code does not
-check this: see the witness in `Props/C08.lean`) -/
-def dimKeysDisjoint {F : Type} (cfg : Config) (e : Entry F) : Bool :=
+/-! ## The hypothesis of the record-level "no duplicate member" theorem
+
+The code never validates the KEYS of per-metric dimensions (`Props/C08.lean`, `c08_dup_member_witness`),
+although each key becomes a member of the split record. `dimKeysDisjoint` says that they collide with
+nothing; each clause is a separate definition so that `Props/C08.lean` can show that none is superfluous. -/
+
+/-- `P` holds of the (sorted) per-metric dimension list of every metric that is routed to a split record -/
+def allSplitKeys {F : Type} (cfg : Config) (e : Entry F) (P : Key → Bool) : Bool :=
   (metricItems e).all fun p =>
     match routeOf cfg p.2 with
     | none => true
-    | some k =>
-      decide ((k.map (·.1)).Nodup)
-      && (k.map (·.1)).all (fun d =>
-            !((strItems e).map (·.1)).contains d
-            && !((routedTo cfg (some k) (metricItems e)).map (·.1)).contains d)
+    | some k => P k
+
+/-- within one metric, the per-metric dimension keys are pairwise distinct -/
+def keysDistinct {F : Type} (cfg : Config) (e : Entry F) : Bool :=
+  allSplitKeys cfg e fun k => decide ((k.map (·.1)).Nodup)
+
+/-- no per-metric dimension key is `_aws` -/
+def keysNotAws {F : Type} (cfg : Config) (e : Entry F) : Bool :=
+  allSplitKeys cfg e fun k => !(k.map (·.1)).contains awsName
+
+/-- no per-metric dimension key is the name of a string value of the entry (in an accepted entry
+every default / entry dimension name is the name of a string value, so those are covered too) -/
+def keysNotStrings {F : Type} (cfg : Config) (e : Entry F) : Bool :=
+  allSplitKeys cfg e fun k => (k.map (·.1)).all fun d => !((strItems e).map (·.1)).contains d
+
+/-- no per-metric dimension key is the name of a metric that is routed to the same split record -/
+def keysNotMetrics {F : Type} (cfg : Config) (e : Entry F) : Bool :=
+  allSplitKeys cfg e fun k =>
+    (k.map (·.1)).all fun d => !((routedTo cfg (some k) (metricItems e)).map (·.1)).contains d
+
+/-- the per-metric dimension keys of every split metric are pairwise distinct, differ from `_aws`,
+from every string member's name and from the name of every metric of the same record (the code does
+not check this: see the witnesses in `Props/C08.lean`) -/
+def dimKeysDisjoint {F : Type} (cfg : Config) (e : Entry F) : Bool :=
+  keysDistinct cfg e && keysNotAws cfg e && keysNotStrings cfg e && keysNotMetrics cfg e
 
 end EmfSpec
